@@ -46,11 +46,22 @@ class OrdHooks(Hooks):
     def inline(self, it, fi):
         return True
 
+    def obj_truth(self, it, obj):
+        # a component is a Michelson value of unknown class: "", 0x, False, {} are falsy values, so its truthiness is not known
+        return None if isinstance(obj, Leaf) else NotImplemented
+
     def compare(self, it, op, a, b, node):
         if isinstance(a, Leaf) and isinstance(b, Leaf):
             if a.idx != b.idx:
-                raise AnalysisError(f'comparator compares components at different positions: {a.tag} {op} {b.tag}')
-            if a.side == b.side:
+                # components at different positions (Left payload against Right payload, first against second): nothing is known about
+                # their relative order, every outcome is explored (a comparator that lets it decide gives inconsistent results)
+                k = ('cross', a.tag, b.tag) if a.tag < b.tag else ('cross', b.tag, a.tag)
+                if k not in it.memo:
+                    it.memo[k] = (LT, EQ, GT)[it.choose(3)]
+                o = it.memo[k]
+                if a.tag > b.tag:
+                    o = {LT: GT, GT: LT, EQ: EQ}[o]
+            elif a.side == b.side:
                 o = EQ
             else:
                 o = self.outcome[a.idx]
@@ -102,10 +113,11 @@ def run_cmp(repo: Repo, a, b, outcome, fn='compare'):
         if fi is None:
             raise AnalysisError(f'{a.cls} has no {fn}')
         res = it.run_paths(lambda i: i.call_function(FuncRef(fi, a, True), [b], {}, None, force_inline=True))
-    if len(res) != 1:
-        return ('fork', len(res))
-    p = res[0]
-    return ('ok', p.value) if p.outcome == 'return' else ('raise', p.value.cls)
+    outs = {('ok', p.value) if p.outcome == 'return' and isinstance(p.value, (bool, int)) else
+            (('raise', p.value.cls) if p.outcome == 'raise' else (p.outcome, vrepr(p.value))) for p in res}
+    if len(outs) != 1:
+        return ('fork', len(res), sorted(map(str, outs))[:4])
+    return next(iter(outs))
 
 
 def run(repo: Repo, chk: Check) -> None:
@@ -163,6 +175,12 @@ def run(repo: Repo, chk: Check) -> None:
             n += 1
             if r != ('ok', want):
                 fails.append({'a': sa, 'b': sb, 'inner': o, 'compare': r, 'spec': want})
+            # sorted() and the enclosing pair comparator use __lt__ / __eq__ directly (compare() asks __eq__ first and hides lt(None, None))
+            for fn, exp in (('__lt__', want == -1), ('__eq__', want == 0)):
+                r2 = run_cmp(repo, a, b, {'0': o}, fn)
+                n += 1
+                if r2 != ('ok', exp):
+                    fails.append({'a': sa, 'b': sb, 'inner': o, fn: r2, 'spec': exp})
     chk.ob('R-ORD', ot.qualname + '.__lt__', not fails, 'None < Some, Some by content', ot.methods['__lt__'].loc, {'cases': n, 'failing': fails[:4]},
            what=f'option order differs from None < Some _: {fails[:2]}')
 
@@ -179,6 +197,11 @@ def run(repo: Repo, chk: Check) -> None:
             n += 1
             if r != ('ok', want):
                 fails.append({'a': sa, 'b': sb, 'inner': o, 'compare': r, 'spec': want})
+            for fn, exp in (('__lt__', want == -1), ('__eq__', want == 0)):
+                r2 = run_cmp(repo, a, b, {'0': o, '1': o}, fn)
+                n += 1
+                if r2 != ('ok', exp):
+                    fails.append({'a': sa, 'b': sb, 'inner': o, fn: r2, 'spec': exp})
     chk.ob('R-ORD', orr.qualname + '.__lt__', not fails, 'Left < Right, same side by content', orr.methods['__lt__'].loc,
            {'cases': n, 'failing': fails[:4]}, what=f'or order differs from Left _ < Right _: {fails[:2]}')
 
